@@ -5,6 +5,7 @@ import PrioModel.FieldInst
 import PrioModel.Agg
 import PrioModel.Prng
 import PrioModel.TraceVdaf
+import PrioModel.IdpfExec
 
 /-! Line-protocol driver: one request per line on stdin, one answer per line on stdout. -/
 open Prio
@@ -308,10 +309,72 @@ def handleFkReads (args : List String) : String :=
     | _, _ => "bad-op"
   | _ => "bad-op"
 
+def parseTable (s : String) : Option (Array Idpf.PrgEntry) :=
+  if s == "none" then some #[] else
+  ((s.splitOn ",").mapM fun (e : String) =>
+    match e.splitOn ":" with
+    | [km, seed, out] =>
+      match km.toList, parseHex seed, parseHex out with
+      | [k, m], some sd, some o => some (Idpf.PrgEntry.mk (if k == '0' then 0 else 1) (m == '1') sd o)
+      | _, _, _ => none
+    | _ => none).map List.toArray
+
+/-- run a list of evaluations against one cache kind, threading the cache state per aggregator -/
+def runEvals {C : Type} {qi ql : Nat} (szi szl : Nat) (cache : Idpf.Cache C (List Nat)) (empty : C)
+    (gI : Idpf.Prg (List Nat) (Idpf.Pair (Fin (qi + 1)))) (gL : Idpf.Prg (List Nat) (Idpf.Pair (Fin (ql + 1))))
+    (ps : Idpf.PublicShare (List Nat) (Idpf.Pair (Fin (qi + 1))) (Idpf.Pair (Fin (ql + 1))))
+    (k0 k1 : List Nat) (evals : List (Nat × List Bool)) : List String :=
+  let rec go (c0 c1 : C) (es : List (Nat × List Bool)) (acc : List String) : List String :=
+    match es with
+    | [] => acc.reverse
+    | (id, pfx) :: rest =>
+      let key := if id == 0 then k0 else k1
+      let c := if id == 0 then c0 else c1
+      let (r, c') := Idpf.eval cache gI gL id ps key pfx c
+      let out := match r with
+        | .ok (.inner v) => "I:" ++ toHex (Idpf.encodePair szi v)
+        | .ok (.leaf v) => "L:" ++ toHex (Idpf.encodePair szl v)
+        | .error => "err"
+        | .panic => "panic"
+      if id == 0 then go c' c1 rest (out :: acc) else if id == 1 then go c0 c' rest (out :: acc) else go c0 c1 rest (out :: acc)
+  go empty empty evals []
+
+def handleIdpf (args : List String) : String :=
+  match args with
+  | [alpha, k0, k1, inner, leaf, cacheKind, evals, table] =>
+    withField "FP64" fun qi szi => withField "F255" fun ql szl =>
+      match parseBits alpha, parseHex k0, parseHex k1, parseHex inner, parseHex leaf, parseTable table with
+      | some al, some k0, some k1, some iv, some lv, some tbl =>
+        let gI := Idpf.tablePrg tbl false qi szi
+        let gL := Idpf.tablePrg tbl true ql szl
+        let innerVals := (List.range (iv.length / (2 * szi))).map fun i =>
+          Idpf.decodePair qi szi ((iv.drop (i * 2 * szi)).take (2 * szi))
+        let leafVal := Idpf.decodePair ql szl lv
+        let evs : Option (List (Nat × List Bool)) :=
+          if evals == "none" then some [] else
+          (evals.splitOn ";").mapM fun (e : String) =>
+            match e.splitOn ":" with
+            | [id, p] => do pure (← id.toNat?, ← parseBits p)
+            | _ => none
+        match Idpf.gen gI gL al innerVals leafVal k0 k1, evs with
+        | some ps, some evs =>
+          let outs :=
+            match cacheKind.splitOn ":" with
+            | ["none"] => runEvals szi szl Idpf.noCache () gI gL ps k0 k1 evs
+            | ["hash"] => runEvals szi szl Idpf.hashMapCache [] gI gL ps k0 k1 evs
+            | ["ring", cap] => runEvals szi szl (Idpf.ringBufferCache (cap.toNat?.getD 0)) [] gI gL ps k0 k1 evs
+            | _ => ["bad-cache"]
+          " ".intercalate (toHex (Idpf.encodePublicShare szi szl ps) :: outs)
+        | none, _ => "gen-err"
+        | _, none => "bad-op"
+      | _, _, _, _, _, _ => "bad-op"
+  | _ => "bad-op"
+
 def handle (line : String) : String :=
   match line.trimAscii.toString.splitOn " " with
   | "fp" :: rest => handleFp rest
   | "dec" :: rest => handleDec rest
+  | "idpf" :: rest => handleIdpf rest
   | "pp" :: r :: sl :: sh :: toks =>
     match r.toNat?, sl.toNat?, sh.toNat? with
     | some r, some a, some b => Trace.runScript (Trace.agg r a b) toks
